@@ -107,7 +107,7 @@ PROPS = {
                         'p_paddr is free but not below p_vaddr: the loader places the process environment (C12) from the highest p_paddr extent, which then cannot land on the image'],
     },
     'C12': {
-        'lean': ['H8.Props.C12'],
+        'lean': ['H8.Props.C12', 'H8.Props.C12W', 'H8.Props.C12S'],
         'gen': ['consts'],
         'runs': [{'mode': 'elf', 'shards': 16}],
         'rule': 'the same generated executables with .stack sizes 0-64 KiB, symbol tables of 1-200 symbols with ___exit at any index, argument strings over printable ASCII with arbitrary runs of blanks / tabs, 0-32 words up to 200 bytes; ER0, ER1, ER2, ER5, ER7, exit address and every non-zero DRAM block (argv table, strings) compared with Model (exact) and Spec (layout recomputed from the property statement); layoutOk (regions ordered, disjoint, inside DRAM) evaluated per case. distinct non-trivial = distinct (file, argument string) pairs.',
